@@ -1450,6 +1450,7 @@ impl TypeChecker {
                     decorators: decorators.clone(),
                     type_annotation: type_annotation.clone().map(TypeAnnotation::TypeExpression),
                     type_scheme: TypeScheme::concrete(Type::Dimension(type_specified)),
+                    readable_type: crate::markup::empty(),
                 }
             }
             ast::Statement::DefineDerivedUnit {
